@@ -1,10 +1,223 @@
 import Driver.JsonUtil
+import DSV.LLO.CodecOutcome
+import DSV.LLO.CodecObs
+import DSV.LLO.CodecConfig
+import DSV.LLO.CodecJson
+import DSV.Mercury.ConfigOnchain
 open Lean
 namespace Driver
-open DSV
+open DSV DSV.LLO
+
+/-! ### message dumps (repeated fields in wire order — never sorted here)
+* SVMsg: `null | {"ty":"<int>","value":"hex"}`
+* OutcomeMsg: `{"stage","ts":"<int>","defs":[{"id","def":ChanDef|null}],"va":[{"id","va"}],
+  "aggs":[{"sid","agg","sv":SVMsg}]}` -/
+
+def jSVMsg : Option SVMsg → Json
+  | none => .null
+  | some m => Json.mkObj [("ty", jInt m.ty), ("value", jBytes m.value)]
+
+def asSVMsg (j : Json) : P (Option SVMsg) :=
+  match j with
+  | .null => pure none
+  | _ => do pure (some ⟨← getInt j "ty", ← getBytes j "value"⟩)
+
+def jOutcomeMsg (m : OutcomeMsg) : Json :=
+  Json.mkObj [("stage", .str m.stage), ("ts", jInt m.ts),
+    ("defs", .arr (m.defs.map fun e => Json.mkObj [("id", jNat e.1),
+        ("def", match e.2 with | none => .null | some d => jChanDef d)]).toArray),
+    ("va", .arr (m.va.map fun e => Json.mkObj [("id", jNat e.1), ("va", jNat e.2)]).toArray),
+    ("aggs", .arr (m.aggs.map fun e => Json.mkObj [("sid", jNat e.sid), ("agg", jNat e.agg), ("sv", jSVMsg e.sv)]).toArray)]
+
+def asOutcomeMsg (j : Json) : P OutcomeMsg := do
+  let defs ← (← asArr (fldD j "defs")).mapM fun e => do
+    let d := fldD e "def"
+    let dd ← (if d.isNull then pure none else some <$> asChanDef d : P (Option ChanDef))
+    pure ((← getNat e "id"), dd)
+  let va ← (← asArr (fldD j "va")).mapM fun e => do pure ((← getNat e "id"), (← getNat e "va"))
+  let aggs ← (← asArr (fldD j "aggs")).mapM fun e => do
+    pure (⟨← getNat e "sid", ← asSVMsg (fldD e "sv"), ← getNat e "agg"⟩ : AggMsg)
+  pure { stage := ← getStr j "stage", ts := ← getInt j "ts", defs := defs, va := va, aggs := aggs }
+
+/-- a family of iteration schedules indexed by a number: rotate by `k/2`, reversed when `k` is odd -/
+def schedOf (k : Nat) : CodecSched :=
+  let f {α : Type} (l : List α) : List α :=
+    let r := l.rotateLeft (k / 2)
+    if k % 2 = 1 then r.reverse else r
+  ⟨f, f, f⟩
+
+def outcomeOps (op : String) (j : Json) : Option (P Json) :=
+  let toMsg (v : Nat) := if v = 0 then toMsgV0 else toMsgV1
+  let fromMsg (v : Nat) := if v = 0 then fromMsgV0 else fromMsgV1
+  let encode (v : Nat) : P Json := do
+    let o ← fld j "outcome" >>= asOutcome
+    let k := (asNat (fldD j "sigma")).toOption.getD 0
+    pure (jRes jOutcomeMsg (toMsg v (schedOf k) o))
+  let decode (v : Nat) : P Json := do
+    let m ← fld j "msg" >>= asOutcomeMsg
+    pure (jRes jOutcome (fromMsg v m))
+  let reencode (v : Nat) : P Json := do
+    let o ← fld j "outcome" >>= asOutcome
+    let k := (asNat (fldD j "sigma")).toOption.getD 0
+    pure (jRes jOutcomeMsg (toMsg v CodecSched.id o >>= fromMsg v >>= toMsg v (schedOf k)))
+  match op with
+  | "outcome.v0.encode" => some (encode 0)
+  | "outcome.v1.encode" => some (encode 1)
+  | "outcome.v0.decode" => some (decode 0)
+  | "outcome.v1.decode" => some (decode 1)
+  | "outcome.v0.reencode" => some (reencode 0)
+  | "outcome.v1.reencode" => some (reencode 1)
+  | _ => none
+
+/-! ### C16 -/
+
+def asObsE (j : Json) : P ObsE := do
+  let vals ← (← asArr (fldD j "values")).mapM fun e => do pure ((← getNat e "sid"), (← asOptSV (fldD e "v")))
+  pure { attested := ← asBytes (fldD j "attested" |> fun x => if x.isNull then Json.str "" else x),
+         shouldRetire := (fldD j "retire") == Json.bool true,
+         ts := ← getNat j "ts",
+         removes := (← (← asArr (fldD j "removes")).mapM asNat).eraseDups,
+         updates := ← asDefs (fldD j "updates"),
+         values := GoMap.ofList vals }
+
+def asObsMsg (j : Json) : P ObsMsg := do
+  let vals ← (← asArr (fldD j "values")).mapM fun e => do pure ((← getNat e "sid"), (← asSVMsg (fldD e "sv")))
+  pure { attested := ← asBytes (fldD j "attested" |> fun x => if x.isNull then Json.str "" else x),
+         shouldRetire := (fldD j "retire") == Json.bool true,
+         tsLegacy := ← getInt j "tsLegacy",
+         ts := ← getNat j "ts",
+         removes := ← (← asArr (fldD j "removes")).mapM asNat,
+         updates := ← asDefs (fldD j "updates"),
+         values := GoMap.ofList vals }
+
+def jObsMsg (m : ObsMsg) : Json :=
+  Json.mkObj [("attested", jBytes m.attested), ("retire", .bool m.shouldRetire), ("tsLegacy", jInt m.tsLegacy),
+    ("ts", jNat m.ts),
+    ("removes", .arr ((m.removes.mergeSort (fun a b => decide (a ≤ b))).map jNat).toArray),
+    ("updates", jDefs m.updates),
+    ("values", .arr ((sortByKey m.values).map fun e => Json.mkObj [("sid", jNat e.1), ("sv", jSVMsg e.2)]).toArray)]
+
+def obsSchedOf (k : Nat) : ObsSched :=
+  let f {α : Type} (l : List α) : List α :=
+    let r := l.rotateLeft (k / 2)
+    if k % 2 = 1 then r.reverse else r
+  ⟨f, f, f, f⟩
+
+def jOptBytes : Option (List UInt8) → Json
+  | none => .null
+  | some b => jBytes b
+
+def asVAList (j : Json) : P (List (Nat × Nat)) := do
+  (← asArr j).mapM fun e => do pure ((← getNat e "id"), (← getNat e "va"))
+
+def c16Ops (op : String) (j : Json) : Option (P Json) :=
+  let sigma := (asNat (fldD j "sigma")).toOption.getD 0
+  match op with
+  | "obs.encode" => some (do
+      let o ← fld j "obs" >>= asObsE
+      pure (jRes jObsMsg (obsToMsg (obsSchedOf sigma) o)))
+  | "obs.decode" => some (do
+      let m ← fld j "msg" >>= asObsMsg
+      pure (jRes jObs (obsFromMsg (obsSchedOf sigma) m)))
+  | "sv.unbinary" => some (do
+      let m ← asSVMsg j
+      pure (jRes jSV (unmarshalProtoSV m)))
+  | "offchain.decode" => some (do
+      let pbuf ← (if (fldD j "unparseable") == Json.bool true then pure none
+        else do pure (some (⟨← getNat j "version", ← getNat j "interval"⟩ : OffchainCfg)) : P (Option OffchainCfg))
+      pure (jRes (fun (c : OffchainCfg) => Json.mkObj [("version", jNat c.version), ("interval", jNat c.interval)])
+        (decodeOffchain (pbuf.map encodeOffchain))))
+  | "llo.onchain.encode" => some (do
+      let p := fldD j "pred"
+      let pred ← (if p.isNull then pure none else some <$> asBytes p : P (Option (List UInt8)))
+      pure (jRes jBytes (encodeOnchain ⟨← getNat j "version", pred⟩)))
+  | "llo.onchain.decode" => some (do
+      let b ← getBytes j "bytes"
+      pure (jRes (fun (c : OnchainCfg) => Json.mkObj [("version", jNat c.version), ("pred", jOptBytes c.pred)]) (decodeOnchain b)))
+  | "mercury.onchain.encode" => some (do
+      pure (jRes jBytes (Mercury.encodeOnchain ⟨← getInt j "min", ← getInt j "max"⟩)))
+  | "mercury.onchain.decode" => some (do
+      let b ← getBytes j "bytes"
+      pure (jRes (fun (c : Mercury.OnchainCfg) => Json.mkObj [("min", jInt c.min), ("max", jInt c.max)]) (Mercury.decodeOnchain b)))
+  | "int192.encode" => some (do pure (jRes jBytes (Mercury.encodeValueInt192 (← getInt j "v"))))
+  | "int192.decode" => some (do pure (jRes jInt (Mercury.decodeValueInt192 (← getBytes j "bytes"))))
+  | "retirement.encode" => some (do
+      let r ← fld j "report"
+      let rr : RetirementReport := ⟨← getNat r "version", ← asVA (fldD r "va")⟩
+      let m := retirementToMsg (fun l => if sigma % 2 = 1 then l.reverse else l) rr
+      pure (Json.mkObj [("ok", Json.mkObj [("version", jNat m.version), ("va", jVA m.va)])]))
+  | "retirement.decode" => some (do
+      let r ← fld j "msg"
+      let m : RetirementMsg := ⟨← getNat r "version", ← asVAList (fldD r "va")⟩
+      let rr := retirementFromMsg m
+      pure (Json.mkObj [("ok", Json.mkObj [("version", jNat rr.version), ("va", jVA rr.va)])]))
+  | _ => none
+
+/-! ### C17 -/
+
+def jChars (cs : List Char) : Json := .str (String.ofList cs)
+
+def jTT (e : Int × List Char) : Json := Json.mkObj [("t", jInt e.1), ("v", jChars e.2)]
+
+def asReport (j : Json) : P Report := do
+  pure { seqNr := ← getNat j "seqNr", channelID := ← getNat j "channelID", validAfter := ← getNat j "validAfter",
+         obsTs := ← getNat j "obsTs", values := ← (← asArr (fldD j "values")).mapM asOptSV,
+         specimen := (fldD j "specimen") == Json.bool true }
+
+def jReport (r : Report) : Json :=
+  Json.mkObj [("seqNr", jNat r.seqNr), ("channelID", jNat r.channelID), ("validAfter", jNat r.validAfter),
+    ("obsTs", jNat r.obsTs), ("values", .arr (r.values.map jOptSV).toArray), ("specimen", .bool r.specimen)]
+
+def jJsonMsg (m : JsonMsg) : Json :=
+  Json.mkObj [("configDigest", jChars m.configDigest), ("seqNr", jNat m.seqNr), ("channelID", jNat m.channelID),
+    ("validAfter", jNat m.validAfter), ("obsTs", jNat m.obsTs), ("values", .arr (m.values.map jTT).toArray),
+    ("specimen", .bool m.specimen)]
+
+def asJsonMsg (j : Json) : P JsonMsg := do
+  let vs ← (← asArr (fldD j "values")).mapM fun e => do pure ((← getInt e "t"), (← getStr e "v").toList)
+  pure { configDigest := (← getStr j "configDigest").toList, seqNr := ← getNat j "seqNr", channelID := ← getNat j "channelID",
+         validAfter := ← getNat j "validAfter", obsTs := ← getNat j "obsTs", values := vs,
+         specimen := (fldD j "specimen") == Json.bool true }
+
+def asSigs (j : Json) : P (List (List UInt8 × Nat)) := do
+  (← asArr j).mapM fun e => do pure ((← getBytes e "sig"), (← getNat e "signer"))
+
+def jSigs (l : List (List UInt8 × Nat)) : Json :=
+  .arr (l.map fun e => Json.mkObj [("sig", jBytes e.1), ("signer", jNat e.2)]).toArray
+
+def c17Ops (op : String) (j : Json) : Option (P Json) :=
+  match op with
+  | "sv.text" => some (do
+      let v ← fld j "v" >>= asSV
+      pure (Json.mkObj [("ok", Json.mkObj [("t", jNat v.type), ("text", jChars (textSV v))])]))
+  | "sv.untext" => some (do
+      let t ← getInt j "t"
+      let s := (← getStr j "text").toList
+      pure (jRes jSV (untextSV s.length t s)))
+  | "json.encode" => some (do
+      let d ← getBytes j "digest"
+      let r ← fld j "report" >>= asReport
+      pure (jRes jJsonMsg (jsonEncode d r)))
+  | "json.decode" => some (do
+      let m ← fld j "msg" >>= asJsonMsg
+      pure (jRes (fun (p : List UInt8 × Report) => Json.mkObj [("digest", jBytes p.1), ("report", jReport p.2)]) (jsonDecode m)))
+  | "json.pack" => some (do
+      let m := jsonPack (← getBytes j "digest") (← getNat j "seqNr") (← getBytes j "report") (← asSigs (fldD j "sigs"))
+      pure (Json.mkObj [("ok", Json.mkObj [("configDigest", jChars m.configDigest), ("seqNr", jNat m.seqNr),
+        ("report", jBytes m.report), ("sigs", jSigs m.sigs)])]))
+  | "json.unpack" => some (do
+      let r ← fld j "msg"
+      let m : PackedMsg := ⟨(← getStr r "configDigest").toList, ← getNat r "seqNr", ← getBytes r "report", ← asSigs (fldD r "sigs")⟩
+      pure (jRes (fun (p : List UInt8 × Nat × List UInt8 × List (List UInt8 × Nat)) =>
+        Json.mkObj [("digest", jBytes p.1), ("seqNr", jNat p.2.1), ("report", jBytes p.2.2.1), ("sigs", jSigs p.2.2.2)]) (jsonUnpack m)))
+  | _ => none
 
 /-- op handlers of this area; return `none` for op names that are not handled here -/
 def handleCodecs (op : String) (j : Json) : Option (P Json) :=
-  match op with
-  | _ => none
+  match outcomeOps op j with
+  | some r => some r
+  | none =>
+    match c16Ops op j with
+    | some r => some r
+    | none => c17Ops op j
 end Driver
